@@ -123,6 +123,14 @@ def syntax_errors():
             located = "<input>:" in err and "^" in err
             if status != 1 or not located:
                 bad.append(("syntax error: status %s, located=%s" % (status, located), {"expr": text, "status": status, "stderr": err[:300]}))
+    # ... locating it: the offending token is the character marked by the harness (leading blank space and lines included)
+    for text in ["1 +* 2", "\n  1 +* 2", "   (1 ] 2", "1 +\n\n   * 3", "\t\tx . . y", "  \n \n[1, 2 3]"]:
+        idx = next(i for i, ch in enumerate(text) if ch in "*]" or text[i:i + 3] == ". y" or text[i:i + 2] == "3]")
+        line = text.count("\n", 0, idx) + 1
+        col = idx - (text.rfind("\n", 0, idx) + 1) + 1
+        status, out, err = run_main(["-n", text], "")
+        if status != 1 or "<input>:%d:%d" % (line, col) not in err:
+            bad.append(("syntax error: reported position is not the offending token's", {"expr": text, "status": status, "expected": "%d:%d" % (line, col), "stderr": err[:200]}))
     return bad
 
 
